@@ -537,3 +537,4 @@ def _replay(case):
             f'(of {len(x.choices)}): {v[1]}')
 
 MANIFEST['text'] += ' 20 request kinds, among them static_file downloads through the default application, the first error pages of a process, 405 answers with different Allow sets and routes guarded by route hooks (25 pairs + two triples in the quick tier).'
+MANIFEST['text'] += ' Kinds st599 (reason phrase given by one request only) and critical (last-resort pages through a header-list-editing server) joined in the tenth wave.'
